@@ -311,6 +311,9 @@ var errCb = errors.New("callback failed")
 
 // consumeUntil consumes the current response with NextPackageUntil and a scripted callback.
 // script: outcome per callback invocation ("cont","stop","eof","err"); beyond the script "cont".
+// errCbWrapsEOF is a callback error that is not io.EOF but wraps it
+var errCbWrapsEOF = fmt.Errorf("callback gave up reading its input: %w", io.EOF)
+
 func (r *rxRunner) consumeUntil(script []string, nilAt int) {
 	calls := 0
 	cbs := 0
@@ -343,6 +346,10 @@ func (r *rxRunner) consumeUntil(script []string, nilAt int) {
 				case "eof":
 					return false, io.EOF
 				case "err":
+					if cbs%2 == 0 {
+						// another error, which merely wraps io.EOF (only the unwrapped io.EOF is special)
+						return false, errCbWrapsEOF
+					}
 					return false, errCb
 				}
 				return false, nil
@@ -360,7 +367,7 @@ func (r *rxRunner) consumeUntil(script []string, nilAt int) {
 		switch {
 		case err == nil:
 			class = "nil"
-		case errors.Is(err, errCb):
+		case errors.Is(err, errCb), errors.Is(err, errCbWrapsEOF):
 			class = "cb"
 		case errors.Is(err, context.DeadlineExceeded):
 			class = "ctx"
@@ -375,7 +382,7 @@ func (r *rxRunner) consumeUntil(script []string, nilAt int) {
 				eeds = append(eeds, int(e.MsgNumber))
 			}
 		}
-		r.tr.Emit(Ev{"ev": "UntilEnd", "ret": ret, "err": class, "iscb": err != nil && errors.Is(err, errCb), "eeds": eeds})
+		r.tr.Emit(Ev{"ev": "UntilEnd", "ret": ret, "err": class, "iscb": err != nil && (errors.Is(err, errCb) || errors.Is(err, errCbWrapsEOF)), "eeds": eeds})
 		if useNil || sawFinal || outcome == "err" || class == "ctx" || class == "other" {
 			return
 		}
